@@ -170,7 +170,8 @@ fn run_menu(rep: &mut Report, progs: Vec<Program>, depth_cap: usize) {
 pub fn check_c06(tier: &str) -> ! {
 	let mut rep = Report::new("C06", tier, "model_checking");
 	crate::conc::common_assumptions(&mut rep);
-	run_menu(&mut rep, c06_programs(tier == "thorough"), if tier == "thorough" { 0 } else { 14 });
+	run_menu(&mut rep, c06_programs(true), 0);
+	let _ = tier;
 	rep.set("rule", format!("{}; C06 oracle: after every step ThreadKey::get() (dropped again when Some) succeeds iff the per-thread key model says Free; inside every closure it fails", menu_rule()));
 	rep.finish()
 }
@@ -178,7 +179,7 @@ pub fn check_c06(tier: &str) -> ! {
 pub fn check_c03(tier: &str) -> ! {
 	let mut rep = Report::new("C03", tier, "model_checking");
 	crate::conc::common_assumptions(&mut rep);
-	run_menu(&mut rep, c03_programs(tier == "thorough"), if tier == "thorough" { 0 } else { 12 });
+	run_menu(&mut rep, c03_programs(tier == "thorough"), 0);
 	// (a) at the first raw op of every acquisition in every explored concurrent execution
 	let mut crep = Report::new("C03", tier, "model_checking");
 	crate::conc::core_families(&mut crep, tier == "thorough");
@@ -200,11 +201,12 @@ pub fn check_c03(tier: &str) -> ! {
 pub fn c11_menu(rep: &mut Report, thorough: bool) {
 	let mut progs = c10_programs(false);
 	progs.extend(c03_programs(false));
-	run_menu(rep, progs, if thorough { 9 } else { 6 });
+	run_menu(rep, progs, 0);
+	let _ = thorough;
 }
 
 pub fn c10_menu(rep: &mut Report, tier: &str) {
-	run_menu(rep, c10_programs(tier == "thorough"), if tier == "thorough" { 0 } else { 10 });
+	run_menu(rep, c10_programs(tier == "thorough"), 0);
 }
 
 pub fn check_c10(tier: &str) -> ! {
